@@ -1,4 +1,331 @@
-(* C06 — lemmas (first part). *)
-From G04 Require Import Access Creds CredsCheck.
+(* C06 — lemmas.  Facts about the source (Tables.v) enter as hypotheses and are
+   discharged in CredsObligations.v. *)
+From G04 Require Import Access Creds CredsCheck HdrFacts.
 
-Lemma placeholder_creds : True. Proof. exact I. Qed.
+(* ================================================================ the matcher *)
+Lemma find_cred_app f l e :
+  find_cred f (l ++ [e]) =
+  match find_cred f l with
+  | Some c => Some c
+  | None => if f e then Some (e_cred e) else None
+  end.
+Proof.
+  unfold find_cred. induction l as [|x r IH]; simpl.
+  - destruct (f e); reflexivity.
+  - destruct (f x); [reflexivity | exact IH].
+Qed.
+
+(* class predicates used by the documented precedence *)
+Definition p_exact (k : str) (e : entry) : bool := is_exact e && str_eqb (join_host_port (e_host e) (e_port e)) k.
+Definition p_port (k : str) (e : entry) : bool := host_wild e && negb (port_wild e) && str_eqb (e_port e) k.
+Definition p_host (k : str) (e : entry) : bool := port_wild e && negb (host_wild e) && str_eqb (e_host e) k.
+Definition p_global (e : entry) : bool := host_wild e && port_wild e.
+
+(* the maps built so far answer exactly like a search through the entries read so far *)
+Definition agrees (m : matcher) (pre : list entry) : Prop :=
+  (forall k, alookup k (m_hostport m) = find_cred (p_exact k) pre) /\
+  (forall k, alookup k (m_port m) = find_cred (p_port k) pre) /\
+  (forall k, alookup k (m_host m) = find_cred (p_host k) pre) /\
+  m_global m = find_cred p_global pre.
+
+Lemma agrees_empty : agrees empty_matcher [].
+Proof. repeat split. Qed.
+
+Lemma str_eqb_swap x y : str_eqb x y = str_eqb y x.
+Proof. apply str_eqb_sym. Qed.
+
+Lemma add_entry_agrees m pre e m' :
+  agrees m pre -> add_entry m e = Some m' -> agrees m' (pre ++ [e]).
+Proof.
+  intros (A1 & A2 & A3 & A4). unfold add_entry.
+  destruct (host_wild e) eqn:HW, (port_wild e) eqn:PW; simpl.
+  - (* global *)
+    destruct (m_global m) eqn:G; [discriminate|]. intro H; inversion H; subst m'; clear H.
+    unfold agrees; simpl. repeat split; intros; rewrite find_cred_app.
+    + rewrite <- A1. unfold p_exact, is_exact. rewrite HW. simpl. destruct (alookup k (m_hostport m)); reflexivity.
+    + rewrite <- A2. unfold p_port. rewrite HW, PW. simpl. destruct (alookup k (m_port m)); reflexivity.
+    + rewrite <- A3. unfold p_host. rewrite HW, PW. simpl. destruct (alookup k (m_host m)); reflexivity.
+    + rewrite <- A4. unfold p_global. rewrite HW, PW. reflexivity.
+  - (* *:port *)
+    destruct (alookup (e_port e) (m_port m)) eqn:L; [discriminate|]. intro H; inversion H; subst m'; clear H.
+    unfold agrees; simpl. repeat split; intros; rewrite find_cred_app.
+    + rewrite <- A1. unfold p_exact, is_exact. rewrite HW. simpl. destruct (alookup k (m_hostport m)); reflexivity.
+    + rewrite <- A2. unfold p_port. rewrite HW, PW. simpl. rewrite (str_eqb_swap (e_port e) k).
+      destruct (str_eqb k (e_port e)) eqn:E.
+      * apply str_eqb_eq in E. subst k. rewrite L. reflexivity.
+      * destruct (alookup k (m_port m)); reflexivity.
+    + rewrite <- A3. unfold p_host. rewrite HW, PW. simpl. destruct (alookup k (m_host m)); reflexivity.
+    + rewrite <- A4. unfold p_global. rewrite HW, PW. simpl. destruct (m_global m); reflexivity.
+  - (* host:* *)
+    destruct (alookup (e_host e) (m_host m)) eqn:L; [discriminate|]. intro H; inversion H; subst m'; clear H.
+    unfold agrees; simpl. repeat split; intros; rewrite find_cred_app.
+    + rewrite <- A1. unfold p_exact, is_exact. rewrite HW, PW. simpl. destruct (alookup k (m_hostport m)); reflexivity.
+    + rewrite <- A2. unfold p_port. rewrite HW. simpl. destruct (alookup k (m_port m)); reflexivity.
+    + rewrite <- A3. unfold p_host. rewrite HW, PW. simpl. rewrite (str_eqb_swap (e_host e) k).
+      destruct (str_eqb k (e_host e)) eqn:E.
+      * apply str_eqb_eq in E. subst k. rewrite L. reflexivity.
+      * destruct (alookup k (m_host m)); reflexivity.
+    + rewrite <- A4. unfold p_global. rewrite HW. simpl. destruct (m_global m); reflexivity.
+  - (* exact *)
+    destruct (alookup (join_host_port (e_host e) (e_port e)) (m_hostport m)) eqn:L; [discriminate|].
+    intro H; inversion H; subst m'; clear H.
+    unfold agrees; simpl. repeat split; intros; rewrite find_cred_app.
+    + rewrite <- A1. unfold p_exact, is_exact. rewrite HW, PW. simpl.
+      rewrite (str_eqb_swap (join_host_port (e_host e) (e_port e)) k).
+      destruct (str_eqb k (join_host_port (e_host e) (e_port e))) eqn:E.
+      * apply str_eqb_eq in E. subst k. rewrite L. reflexivity.
+      * destruct (alookup k (m_hostport m)); reflexivity.
+    + rewrite <- A2. unfold p_port. rewrite HW. simpl. destruct (alookup k (m_port m)); reflexivity.
+    + rewrite <- A3. unfold p_host. rewrite PW. simpl. destruct (alookup k (m_host m)); reflexivity.
+    + rewrite <- A4. unfold p_global. rewrite HW. simpl. destruct (m_global m); reflexivity.
+Qed.
+
+Lemma build_matcher_agrees es : forall m pre m',
+  agrees m pre -> build_matcher m es = Some m' -> agrees m' (pre ++ es).
+Proof.
+  induction es as [|e r IH]; intros m pre m' A H; simpl in H.
+  - inversion H; subst. rewrite app_nil_r. exact A.
+  - destruct (add_entry m e) as [m1|] eqn:Ad; [|discriminate].
+    replace (pre ++ e :: r) with ((pre ++ [e]) ++ r) by (rewrite <- app_assoc; reflexivity).
+    apply (IH m1); [apply (add_entry_agrees m pre e m1 A Ad) | exact H].
+Qed.
+
+Lemma new_matcher_agrees es m : new_matcher es = Some m -> agrees m es.
+Proof. intro H. apply (build_matcher_agrees es empty_matcher [] m agrees_empty H). Qed.
+
+Section Precedence.
+  Hypothesis order : lookups_of cred_lookup_order = [LHostPort; LSplit; LPort; LHost; LGlobal].
+
+  (* Match = the documented precedence, stated on the entry list *)
+  Lemma match_is_spec es m hp :
+    new_matcher es = Some m -> match_hostport m hp = spec_match es hp.
+  Proof.
+    intro H. destruct (new_matcher_agrees es m H) as (A1 & A2 & A3 & A4).
+    unfold match_hostport, spec_match. rewrite order. simpl.
+    rewrite A1. fold (p_exact hp).
+    change (fun e : entry => is_exact e && str_eqb (join_host_port (e_host e) (e_port e)) hp) with (p_exact hp).
+    destruct (find_cred (p_exact hp) es); [reflexivity|].
+    destruct (split_host_port hp) as [[h p]|]; [|reflexivity].
+    rewrite A2.
+    change (fun e : entry => host_wild e && negb (port_wild e) && str_eqb (e_port e) p) with (p_port p).
+    destruct (find_cred (p_port p) es); [reflexivity|].
+    rewrite A3.
+    change (fun e : entry => port_wild e && negb (host_wild e) && str_eqb (e_host e) h) with (p_host h).
+    destruct (find_cred (p_host h) es); [reflexivity|].
+    rewrite A4. change (fun e : entry => host_wild e && port_wild e) with p_global.
+    destruct (find_cred p_global es); reflexivity.
+  Qed.
+
+  Hypothesis http_port : itoa cred_http_port = b "80".
+  Hypothesis https_port : itoa cred_https_port = b "443".
+
+  Lemma match_url_is_spec es m scheme host :
+    new_matcher es = Some m -> match_url m scheme host = spec_match_url es scheme host.
+  Proof.
+    intro H. unfold match_url, spec_match_url. rewrite http_port, https_port.
+    destruct (url_port host); [|apply match_is_spec; exact H].
+    destruct (str_eqb scheme (b "http")); [apply match_is_spec; exact H|].
+    destruct (str_eqb scheme (b "https")); [apply match_is_spec; exact H | reflexivity].
+  Qed.
+End Precedence.
+
+(* the precedence levels, readable: a higher level shadows the lower ones *)
+Lemma spec_match_exact_wins es hp c :
+  find_cred (p_exact hp) es = Some c -> spec_match es hp = Some c.
+Proof.
+  intro H. unfold spec_match.
+  change (fun e : entry => is_exact e && str_eqb (join_host_port (e_host e) (e_port e)) hp) with (p_exact hp).
+  rewrite H. reflexivity.
+Qed.
+
+(* ================================================================ the pipeline *)
+Definition PA : str := b "Proxy-Authorization".
+Definition AU : str := b "Authorization".
+
+Section Pipeline.
+  Hypothesis pa_is_hop_by_hop : existsb (fun x => str_eqb (canon x) PA) hop_by_hop_headers = true.
+  Hypothesis au_not_hop_by_hop : existsb (fun x => str_eqb (canon x) AU) hop_by_hop_headers = false.
+
+  (* hop-by-hop removal leaves no Proxy-Authorization *)
+  Lemma hbh_removes_pa h : raw_get PA (remove_hop_by_hop h) = None.
+  Proof.
+    unfold remove_hop_by_hop. rewrite raw_get_fold_del, existsb_app, pa_is_hop_by_hop, orb_true_r. reflexivity.
+  Qed.
+
+  (* ... and keeps Authorization unless the client nominated it in Connection *)
+  Lemma hbh_keeps_au h :
+    existsb (fun x => str_eqb (canon x) AU) (connection_nominated h) = false ->
+    raw_get AU (remove_hop_by_hop h) = raw_get AU h.
+  Proof.
+    intro Hn. unfold remove_hop_by_hop.
+    rewrite raw_get_fold_del, existsb_app, Hn, au_not_hop_by_hop. reflexivity.
+  Qed.
+
+  Lemma set_basic_auth_pa om scheme host h :
+    raw_get PA (set_basic_auth om scheme host h) = raw_get PA h.
+  Proof.
+    unfold set_basic_auth. destruct (client_authorization_absent h); [|reflexivity].
+    destruct (omatch_url om scheme host); [|reflexivity].
+    unfold h_set. apply raw_get_set_other. vm_compute. discriminate.
+  Qed.
+
+  Lemma pipeline_no_pa om scheme host h : raw_get PA (request_pipeline om scheme host h) = None.
+  Proof. unfold request_pipeline. rewrite set_basic_auth_pa. apply hbh_removes_pa. Qed.
+
+  Hypothesis guard_all_lines : site_auth_checks_all_lines = true.
+
+  (* setBasicAuth: any client line (even an empty one) keeps the field as it is *)
+  Lemma set_basic_auth_au om scheme host h :
+    h_values AU (set_basic_auth om scheme host h) =
+    match h_values AU h with
+    | [] => match omatch_url om scheme host with Some c => [basic_value c] | None => [] end
+    | ls => ls
+    end.
+  Proof.
+    unfold set_basic_auth, client_authorization_absent. rewrite guard_all_lines.
+    change authorization with AU.
+    destruct (h_values AU h) eqn:V.
+    - destruct (omatch_url om scheme host); [|exact V]. apply h_values_set_same.
+    - exact V.
+  Qed.
+
+  Lemma pipeline_au om scheme host h :
+    existsb (fun x => str_eqb (canon x) AU) (connection_nominated h) = false ->
+    h_values AU (request_pipeline om scheme host h) =
+    match h_values AU h with
+    | [] => match omatch_url om scheme host with Some c => [basic_value c] | None => [] end
+    | ls => ls
+    end.
+  Proof.
+    intro Hn. unfold request_pipeline. rewrite set_basic_auth_au.
+    assert (h_values AU (remove_hop_by_hop h) = h_values AU h) as ->; [|reflexivity].
+    unfold h_values. replace (canon AU) with AU by (vm_compute; reflexivity).
+    rewrite hbh_keeps_au by exact Hn. reflexivity.
+  Qed.
+
+  (* ============================================================== messages *)
+  Hypothesis dialvia_ops :
+    dialvia_header_ops = [b "add-user-agent"; b "add-proxy-authorization"; b "copy-connect-header"; b "copy-dynamic-header"].
+
+  Lemma raw_get_raw_copy k src : forall dst,
+    raw_get k src = None -> raw_get k (raw_copy src dst) = raw_get k dst.
+  Proof.
+    unfold raw_copy. induction src as [|[k' vs] r IH]; intros dst H; simpl; [reflexivity|].
+    simpl in H. destruct (str_eqb k k') eqn:E; [discriminate|].
+    rewrite (IH _ H). apply raw_get_set_other. apply str_eqb_neq in E. exact E.
+  Qed.
+
+  (* the CONNECT head sent to an upstream proxy: its Proxy-Authorization is the proxy's
+     credential or nothing, whatever the client sent *)
+  Lemma dialvia_pa pc h :
+    raw_get PA h = None ->
+    h_values PA (dialvia_connect_header pc h) = match pc with Some c => [basic_value c] | None => [] end.
+  Proof.
+    intro Hn. unfold dialvia_connect_header. rewrite dialvia_ops. cbn [fold_left].
+    unfold dialvia_op at 1. cbn.
+    unfold h_values. replace (canon PA) with PA by (vm_compute; reflexivity).
+    change (b "Proxy-Authorization") with PA in *.
+    destruct pc as [c|]; cbn.
+    - rewrite raw_get_raw_copy by exact Hn.
+      unfold h_add, proxy_authorization. change (b "Proxy-Authorization") with PA.
+      replace (canon PA) with PA by (vm_compute; reflexivity).
+      rewrite raw_get_set_same. unfold h_values. replace (canon PA) with PA by (vm_compute; reflexivity).
+      cbn. reflexivity.
+    - rewrite raw_get_raw_copy by exact Hn. cbn. reflexivity.
+  Qed.
+
+  (* every message the proxy emits: Proxy-Authorization is a function of the
+     configuration and of the hop only — never of what the client sent *)
+  Lemma forward_pa om u q m :
+    In m (forward om u q) ->
+    h_values PA (o_fields m) =
+    match o_to m, upstream_cred om u with
+    | ToProxy, Some c => [basic_value c]
+    | _, _ => []
+    end.
+  Proof.
+    unfold forward. destruct (is_connect q).
+    - destruct u as [|s hst ui|s hst]; simpl; try contradiction;
+        (intros [<-|[]]; simpl; rewrite dialvia_pa by apply pipeline_no_pa;
+         match goal with |- context [match ?x with Some _ => _ | None => _ end] => destruct x end; reflexivity).
+    - destruct u as [|s hst ui|s hst]; simpl; (intros [<-|[]]; simpl).
+      + unfold h_values. replace (canon PA) with PA by (vm_compute; reflexivity).
+        rewrite pipeline_no_pa. reflexivity.
+      + match goal with |- context [match ?x with Some _ => _ | None => _ end] => destruct x eqn:U end.
+        * apply h_values_set_same.
+        * unfold h_values. replace (canon PA) with PA by (vm_compute; reflexivity).
+          rewrite pipeline_no_pa. reflexivity.
+      + match goal with |- context [match ?x with Some _ => _ | None => _ end] => destruct x eqn:U end.
+        * apply h_values_set_same.
+        * unfold h_values. replace (canon PA) with PA by (vm_compute; reflexivity).
+          rewrite pipeline_no_pa. reflexivity.
+  Qed.
+
+  (* a message addressed to an origin never carries the field *)
+  Lemma forward_origin_no_pa om u q m :
+    In m (forward om u q) -> o_to m = ToOrigin -> h_values PA (o_fields m) = [].
+  Proof. intros Hin Ho. rewrite (forward_pa om u q m Hin), Ho. reflexivity. Qed.
+
+  (* Authorization on the plain request leaving the proxy *)
+  Lemma forward_au om u q m :
+    is_connect q = false ->
+    existsb (fun x => str_eqb (canon x) AU) (connection_nominated (r_hdr q)) = false ->
+    In m (forward om u q) ->
+    h_values AU (o_fields m) =
+    match h_values AU (r_hdr q) with
+    | [] => match omatch_url om (b "http") (r_host q) with Some c => [basic_value c] | None => [] end
+    | ls => ls
+    end.
+  Proof.
+    intros Hc Hn. unfold forward. rewrite Hc.
+    destruct u as [|s hst ui|s hst]; simpl; (intros [<-|[]]; simpl).
+    - apply pipeline_au. exact Hn.
+    - match goal with |- context [match ?x with Some _ => _ | None => _ end] => destruct x end.
+      + rewrite h_values_set_other by (vm_compute; discriminate). apply pipeline_au. exact Hn.
+      + apply pipeline_au. exact Hn.
+    - match goal with |- context [match ?x with Some _ => _ | None => _ end] => destruct x end.
+      + rewrite h_values_set_other by (vm_compute; discriminate). apply pipeline_au. exact Hn.
+      + apply pipeline_au. exact Hn.
+  Qed.
+End Pipeline.
+
+(* ================================================================ site credentials, end result *)
+Section Site.
+  Hypothesis order : lookups_of cred_lookup_order = [LHostPort; LSplit; LPort; LHost; LGlobal].
+  Hypothesis http_port : itoa cred_http_port = b "80".
+  Hypothesis https_port : itoa cred_https_port = b "443".
+  Hypothesis au_not_hop_by_hop : existsb (fun x => str_eqb (canon x) AU) hop_by_hop_headers = false.
+  Hypothesis guard_all_lines : site_auth_checks_all_lines = true.
+
+  Lemma site_only_on_match es m u q msg :
+    new_matcher es = Some m ->
+    is_connect q = false ->
+    existsb (fun x => str_eqb (canon x) AU) (connection_nominated (r_hdr q)) = false ->
+    In msg (forward (Some m) u q) ->
+    h_values AU (r_hdr q) = [] ->
+    h_values AU (o_fields msg) =
+    match spec_match_url es (b "http") (r_host q) with Some c => [basic_value c] | None => [] end.
+  Proof.
+    intros H Hc Hn Hin Hno.
+    rewrite (forward_au au_not_hop_by_hop guard_all_lines (Some m) u q msg Hc Hn Hin), Hno.
+    simpl. rewrite (match_url_is_spec order http_port https_port es m _ _ H). reflexivity.
+  Qed.
+
+  Lemma client_authorization_kept om u q msg l ls :
+    is_connect q = false ->
+    existsb (fun x => str_eqb (canon x) AU) (connection_nominated (r_hdr q)) = false ->
+    In msg (forward om u q) ->
+    h_values AU (r_hdr q) = l :: ls ->
+    h_values AU (o_fields msg) = l :: ls.
+  Proof.
+    intros Hc Hn Hin Hs.
+    rewrite (forward_au au_not_hop_by_hop guard_all_lines om u q msg Hc Hn Hin), Hs. reflexivity.
+  Qed.
+
+  Lemma upstream_cred_is_spec es m u :
+    new_matcher es = Some m -> upstream_cred (Some m) u = spec_upstream_cred es u.
+  Proof.
+    intro H. destruct u as [|s h [c|]|s h]; simpl; try reflexivity;
+      apply (match_url_is_spec order http_port https_port es m _ _ H).
+  Qed.
+End Site.
